@@ -51,6 +51,9 @@ func (f *Ash) Call(s *slip.Scope, args slip.List, depth int) (result slip.Object
 		slip.TypePanic(s, depth, "shift", args[1], "fixnum")
 	}
 	sh := int(shift)
+	if slip.ArrayMaxDimension < sh && args[0] != slip.Fixnum(0) {
+		slip.ErrorPanic(s, depth, "a shift of %d bits is too large", sh)
+	}
 	switch ti := args[0].(type) {
 	case slip.Fixnum:
 		if sh < 0 {
